@@ -6,7 +6,7 @@ PROP = {
     "n": {"quick": 320, "thorough": 8000},
     "theorems": ["rd_sound", "rd_precise", "ud_contains_last_writer", "ud_guards_contain_last_writer", "du_inverse"],
     "rule": "random IL functions (1-6 blocks, <=4 instructions each, loops in 2/3, guarded edges, empty blocks, loads/stores, "
-            "injected `x = x - 4`, `z = x + y`, `x = x ^ x`, intrinsics with declared/undeclared/multi-scalar effects in 30%, "
+            "injected `x = x - 4`, `z = x + y`, `x = x ^ x`, definitions read only by a guard, intrinsics with declared/undeclared/multi-scalar effects in 30%, "
             "unreachable blocks in ~7%, one name at two widths (a:32 / a:8) in 20%), 3 initial states each, 60 steps; non-trivial = >= 4 locations and (multi-read instruction or loop or "
             "guarded edge or instruction reading its own destination); distinct by function text",
     "trusted_base": [KERNEL, HARNESS_TB],
